@@ -199,6 +199,15 @@ def run(ctx):
         out = os.path.join(sc, "c05_%d.out" % i)
         fmt = ["fasta", "msf", "clu"][k % 3]
         jobs.append(dict(i=i, args=["-i", inp, "-o", out, "-f", fmt, "-n", "2", inp2], tag="capacity-%d" % nrec, otag="two-files", fmt=fmt, out=out, inp=inp))
+    # ... and a LATER file that is larger than one growth step of the table (3 + 1100, 600 + 1000, 513 + 600 records)
+    for k, (n1, n2) in enumerate([(3, 1100), (600, 1000)] if ctx.quick else [(3, 1022), (3, 1100), (600, 1000), (513, 600), (1, 2100), (1024, 1025)]):
+        i = N + 30 + k
+        inp = os.path.join(sc, "c05_%d.in" % i)
+        open(inp, "w").write(gen.fasta_text([("r%d" % x, gen.rand_seq(rng, "ACGT", rng.randint(4, 9))) for x in range(n1)]))
+        inp2 = os.path.join(sc, "c05_%d.in2" % i)
+        open(inp2, "w").write(gen.fasta_text([("x%d" % x, gen.rand_seq(rng, "ACGT", rng.randint(4, 9))) for x in range(n2)]))
+        out = os.path.join(sc, "c05_%d.out" % i)
+        jobs.append(dict(i=i, args=["-i", inp, "-o", out, "-f", "fasta", "-n", "2", inp2], tag="capacity-%d+%d" % (n1, n2), otag="two-files", fmt="fasta", out=out, inp=inp))
     for k, (nrec, L) in enumerate([(1017, 8), (1015, 8), (3, 30500 if not ctx.quick else 0), (2, 30700), (339, 150), (203, 280)]):
         if L == 0:
             continue
